@@ -404,12 +404,83 @@ fn merge2(t: &mut Trace, p: &CharPartition, q: &CharPartition) {
 fn merge_list(t: &mut Trace, l: &[CharPartition]) {
     let r = guarded(|| cp_str(&merge_partition_list(l.iter())));
     t.op(&format!("cp merge_list {}", cps_str(l)), &r, l.len() >= 2);
+    // the same list through iterators that do not know their length (size_hint lower bound 0),
+    // that over-report nothing, and by value through a chain: the argument is `impl Iterator`
+    let r = guarded(|| cp_str(&merge_partition_list(l.iter().filter(|_| true))));
+    t.op(&format!("cp merge_list_iter filter {}", cps_str(l)), &r, l.len() >= 2);
+    let r = guarded(|| {
+        let mut k = 0;
+        cp_str(&merge_partition_list(std::iter::from_fn(|| {
+            k += 1;
+            l.get(k - 1)
+        })))
+    });
+    t.op(&format!("cp merge_list_iter from_fn {}", cps_str(l)), &r, l.len() >= 2);
+    let h = l.len() / 2;
+    let r = guarded(|| cp_str(&merge_partition_list(l[..h].iter().chain(l[h..].iter().skip_while(|_| false)))));
+    t.op(&format!("cp merge_list_iter chain {}", cps_str(l)), &r, l.len() >= 2);
+}
+
+/// `clone_from` into targets with a different history, and the iterators entered through `nth`
+/// (which `skip`, `step_by` ... call) after some `next` calls
+fn copies_and_iterators(t: &mut Trace, p: &CharPartition, others: &[&CharPartition]) {
+    let ps = cp_str(p);
+    let nt = !p.is_empty();
+    for q in others {
+        let r = guarded(|| {
+            let mut x = (*q).clone();
+            x.clone_from(p);
+            cp_str(&x)
+        });
+        t.op(&format!("cp clone_from {} {}", cp_str(q), ps), &r, nt);
+    }
+    let r = guarded(|| cp_str(&p.clone()));
+    t.op(&format!("cp clone {}", ps), &r, nt);
+    let n = p.len();
+    for k in 0..=std::cmp::min(n + 1, 4) {
+        for j in 0..=std::cmp::min(n + 1, 4) {
+            let r = guarded(|| {
+                let mut it = p.class_ids();
+                for _ in 0..k {
+                    it.next();
+                }
+                match it.nth(j) {
+                    Some(c) => cid_str(c),
+                    None => "none".to_string(),
+                }
+            });
+            t.op(&format!("cp class_ids_nth {} {} {}", ps, k, j), &r, nt);
+            let r = guarded(|| {
+                let mut it = p.picks();
+                for _ in 0..k {
+                    it.next();
+                }
+                match it.nth(j) {
+                    Some(c) => c.to_string(),
+                    None => "none".to_string(),
+                }
+            });
+            t.op(&format!("cp picks_nth {} {} {}", ps, k, j), &r, nt);
+        }
+    }
+    for step in 1..=3usize {
+        let r = guarded(|| {
+            let v: Vec<ClassId> = p.class_ids().step_by(step).take(n + 3).collect();
+            p_list(&v, |c| cid_str(*c))
+        });
+        t.op(&format!("cp class_ids_step {} {}", ps, step), &r, nt);
+        let r = guarded(|| {
+            let v: Vec<u32> = p.picks().skip(step).take(n + 3).collect();
+            p_nats(&v)
+        });
+        t.op(&format!("cp picks_skip {} {}", ps, step), &r, nt);
+    }
 }
 
 // ---------- the run ----------
 
 pub fn run(t: &mut Trace, rng: &mut Rng, thorough: bool) {
-    t.rule = "partitions built through the real constructors (new/from_set/push/try_from_list/try_from_iter): ALL partitions over the 7 end points {0,1,2,3,MAX-2,MAX-1,MAX} (610), each queried at ALL characters and ALL sets [a,b] over its cut points +-1 and 0/MAX, every accessor at every index 0..len+1 and len+5; random partitions over a 19-point set on both ends and the middle of the alphabet and long random partitions (binary-search depth); try_from_list on all ordered pairs (thorough: triples) of intervals over the 7 points and on all permutations of random lists (overlapping, equal starts); push_seq with violated preconditions; merge on all ordered pairs of the 89 partitions over {0,1,2,MAX-1,MAX} + random pairs, merge_list on all permutations of random lists. A case counts as non-trivial when its partition(s) have at least one interval (lists: at least two elements); cases are distinct by operation line".into();
+    t.rule = "partitions built through the real constructors (new/from_set/push/try_from_list/try_from_iter): ALL partitions over the 7 end points {0,1,2,3,MAX-2,MAX-1,MAX} (610), each queried at ALL characters and ALL sets [a,b] over its cut points +-1 and 0/MAX, every accessor at every index 0..len+1 and len+5, clone / clone_from into four targets with different complement witnesses, class_ids/picks entered through nth after k next calls (k,j <= 4) and through step_by/skip; random partitions over a 19-point set on both ends and the middle of the alphabet and long random partitions (binary-search depth); try_from_list on all ordered pairs (thorough: triples) of intervals over the 7 points and on all permutations of random lists (overlapping, equal starts); push_seq with violated preconditions; merge on all ordered pairs of the 89 partitions over {0,1,2,MAX-1,MAX} + random pairs, merge_list on all permutations of random lists, each list also through filter / from_fn / chain+skip_while iterators. A case counts as non-trivial when its partition(s) have at least one interval (lists: at least two elements); cases are distinct by operation line".into();
 
     // ---- maximal families: the alphabet tiled by consecutive blocks of width w, given in a
     // shuffled order (w = 1 is one singleton per code point: the largest pairwise disjoint family).
@@ -483,8 +554,18 @@ pub fn run(t: &mut Trace, rng: &mut Rng, thorough: bool) {
     // ---- exhaustive: all partitions over 7 end points, every constructor path
     let p7: [u32; 7] = [0, 1, 2, 3, MAX_CHAR - 2, MAX_CHAR - 1, MAX_CHAR];
     let all7 = all_partitions(&p7);
+    // targets of `clone_from` with different complement witnesses: empty, covering the alphabet,
+    // starting at 0, starting later
+    let mut tg_zero = CharPartition::new();
+    tg_zero.push(0, 5);
+    tg_zero.push(7, MAX_CHAR);
+    let mut tg_mid = CharPartition::new();
+    tg_mid.push(10, 20);
+    let tg_new = CharPartition::new();
+    let tg_full = CharPartition::from_set(&CharSet::all_chars());
     for (k, l) in all7.iter().enumerate() {
         let p = build(t, rng, l, k as u64);
+        copies_and_iterators(t, &p, &[&tg_new, &tg_full, &tg_zero, &tg_mid]);
         // the other constructor paths must give the same partition (the lines are compared by the driver)
         if k % 3 == 0 {
             let mut s = l.clone();
@@ -505,6 +586,7 @@ pub fn run(t: &mut Trace, rng: &mut Rng, thorough: bool) {
         let p = build(t, rng, &l, k);
         if k % 8 == 0 {
             accessors(t, &p);
+            copies_and_iterators(t, &p, &[&tg_full, &tg_zero]);
         }
         all_queries(t, rng, &p, if thorough { 2000 } else { 250 });
     }
@@ -628,8 +710,10 @@ pub fn run(t: &mut Trace, rng: &mut Rng, thorough: bool) {
         merge2(t, &p, &q);
         if k % 16 == 1 {
             // the result is a partition like any other: query it
-            let m = merge_partitions(&p, &q);
-            all_queries(t, rng, &m, 60);
+            // (a panic here was already reported by the `merge` line above)
+            if let Ok(m) = catch_unwind(AssertUnwindSafe(|| merge_partitions(&p, &q))) {
+                all_queries(t, rng, &m, 60);
+            }
         }
     }
     // merge_list: every order of the same list
